@@ -18,20 +18,25 @@ EXTENDS CallStack, TLC
 CONSTANTS N, T, Builder, ExcludeTouch, ExcludeZeroPairs
 
 Spans == { sp \in [ts : 0..T, dur : 0..T] : sp.ts + sp.dur <= T }
-Families == UNION { { [i \in 1..n |-> [id |-> i, ts |-> f[i].ts, dur |-> f[i].dur]] : f \in [1..n -> Spans] } : n \in 1..N }
 
 VARIABLES fam, remaining, st, last, phase
 vars == <<fam, remaining, st, last, phase>>
 S == Range(fam)
 Less(x, y) == IF Builder = "new" THEN LessNew(x, y) ELSE LessOld(x, y)
 
-Init == /\ fam \in Families
-        /\ Laminar(Range(fam))
-        /\ (ExcludeTouch => ~ZeroAtTouch(Range(fam)))
-        /\ (ExcludeZeroPairs => ~ZeroPair(Range(fam)))
-        /\ remaining = Endpoints(Range(fam))
-        /\ st = MachInit /\ last = [id |-> 0, kind |-> "none", top |-> 0]
-        /\ phase = "run"
+\* the family is built span by span (ids = positions), only properly nested families continue: every family of at most N spans is reached
+Init == fam = <<>> /\ remaining = {} /\ st = MachInit /\ last = [id |-> 0, kind |-> "none", top |-> 0] /\ phase = "build"
+AddSpan == /\ phase = "build" /\ Len(fam) < N
+           /\ \E sp \in Spans :
+                 LET f2 == Append(fam, [id |-> Len(fam) + 1, ts |-> sp.ts, dur |-> sp.dur]) IN
+                 /\ Laminar(Range(f2))
+                 /\ fam' = f2
+           /\ UNCHANGED <<remaining, st, last, phase>>
+Start == /\ phase = "build" /\ Len(fam) >= 1
+         /\ (ExcludeTouch => ~ZeroAtTouch(Range(fam)))
+         /\ (ExcludeZeroPairs => ~ZeroPair(Range(fam)))
+         /\ remaining' = Endpoints(Range(fam)) /\ phase' = "run"
+         /\ UNCHANGED <<fam, st, last>>
 
 Minimal(e) == \A r \in remaining \ {e} : ~Less(r, e)
 Step == /\ phase = "run" /\ remaining # {}
@@ -42,12 +47,12 @@ Step == /\ phase = "run" /\ remaining # {}
               /\ remaining' = remaining \ {e}
         /\ UNCHANGED <<fam, phase>>
 Finish == /\ phase = "run" /\ remaining = {} /\ phase' = "done" /\ UNCHANGED <<fam, remaining, st, last>>
-Next == Step \/ Finish
+Next == AddSpan \/ Start \/ Step \/ Finish
 Spec == Init /\ [][Next]_vars
 
 \* for the old comparator the "sic" branch answers 0 in one direction only; symmetrised, it must still be a strict total order
 LessSym(x, y) == IF Builder = "new" THEN LessNew(x, y) ELSE (CmpOld(x, y) < 0 \/ CmpOld(y, x) > 0)
-TotalOrder == remaining = Endpoints(S) => IsStrictTotal(LessSym, Endpoints(S))
+TotalOrder == (phase = "run" /\ remaining = Endpoints(S)) => IsStrictTotal(LessSym, Endpoints(S))
 Sortable == (phase = "run" /\ remaining # {}) => \E e \in remaining : Minimal(e)
 \* a close pops its own event (or one with the same span: swapping identical spans is harmless)
 LIFO == last.kind = "close" =>
